@@ -614,6 +614,7 @@ def main():
     a = ap.parse_args()
     V = '/verif'
     cfg = json.load(open('%s/props/%s.json' % (V, a.prop)))
+    a.prop = cfg.get('id', a.prop)  # a scratch props file (props/X19.json) may carry the id of the property it stands in for
     repo = os.environ.get('GOVC_REPO', '/repo')
     out_root = os.environ.get('GOVC_OUT', V + '/out')
     to = a.timeout or (30 if a.tier == 'quick' else 120)
@@ -788,6 +789,78 @@ def main():
         except ToolError as e:
             tool_errors.append(str(e))
         except SystemExit as e:
+            tool_errors.append(str(e))
+    # ---- registration units: which exception classes a hook registers with the shared fail-safe. The fail-safe swallows
+    # (and counts as a gateway failure) every exception that is an instance of a registered class - for ALL hooks, the
+    # object is shared. "Errors that do not come from the gateway are never swallowed" therefore needs every registered
+    # class to be narrower than the built-in families application errors live in: no built-in exception class that has
+    # subclasses of its own (BaseException, Exception, OSError/IOError/EnvironmentError/socket.error, ConnectionError,
+    # LookupError, ArithmeticError, RuntimeError, ValueError, ...). Decided on the AST of the real source (class hierarchy
+    # of the built-ins taken from the running interpreter); library classes (requests.ConnectionError, ...) are trusted
+    # to be specific to a connection failure.
+    import builtins as _bi
+    def _broad(name):
+        c = getattr(_bi, name, None)
+        return isinstance(c, type) and issubclass(c, BaseException) and (len(c.__subclasses__()) > 0 or name in ('IOError', 'EnvironmentError'))
+    for w in cfg.get('python_registrations', []):
+        try:
+            P = lambda k: w[k].replace('/repo', repo, 1)
+            src = open(P('source')).read(); tree_ = ast.parse(src)
+            regs = []; curmod_ = ''
+            for ln_, line in enumerate(open(P('contracts')).read().splitlines(), 1):
+                mm_ = re.match(r'#@ module (\S+)\s*$', line)
+                if mm_: curmod_ = os.path.basename(mm_.group(1))
+                m_ = re.match(r'#@ registration (\w+)\.(\w+) ([\w.]+)\s*$', line)
+                if m_ and curmod_ == os.path.basename(P('source')): regs.append([m_.group(1), m_.group(2), m_.group(3), None, None, ln_])
+                m_ = re.match(r'#@   prop (.*)$', line)
+                if m_ and regs and regs[-1][3] is None: regs[-1][3] = [x.strip() for x in m_.group(1).split(',')]
+                m_ = re.match(r'#@   ensures\[([\w-]+)\] narrow\(registered\)\s*$', line)
+                if m_ and regs: regs[-1][4] = m_.group(1)
+            imported = {}
+            for n_ in ast.walk(tree_):
+                if isinstance(n_, ast.ImportFrom):
+                    for al in n_.names: imported[al.asname or al.name] = (n_.module or '') + '.' + al.name
+                elif isinstance(n_, ast.Import):
+                    for al in n_.names: imported[(al.asname or al.name).split('.')[0]] = al.name
+            for cname, mname, callee, props_, label, cln in regs:
+                if a.prop not in (props_ or []) or not label: continue
+                fdef = None
+                for n_ in tree_.body:
+                    if isinstance(n_, ast.ClassDef) and n_.name == cname:
+                        for m2 in n_.body:
+                            if isinstance(m2, ast.FunctionDef) and m2.name == mname: fdef = m2
+                if fdef is None: raise ToolError('registration %s.%s not found in %s' % (cname, mname, P('source')))
+                def dotted(e):
+                    if isinstance(e, ast.Name): return e.id
+                    if isinstance(e, ast.Attribute):
+                        b_ = dotted(e.value); return None if b_ is None else b_ + '.' + e.attr
+                    return None
+                calls = [c_ for c_ in ast.walk(fdef) if isinstance(c_, ast.Call) and dotted(c_.func) == callee]
+                if not calls: raise ToolError('registration %s.%s: no call of %s (contract %s:%d)' % (cname, mname, callee, P('contracts'), cln))
+                bad = []; seen_ = []
+                for c_ in calls:
+                    arg = c_.args[0] if c_.args else None
+                    elts = arg.elts if isinstance(arg, (ast.Tuple, ast.List)) else None
+                    if elts is None: bad.append('<not a literal tuple: cannot be decided>'); continue
+                    for e_ in elts:
+                        d_ = dotted(e_)
+                        if d_ is None: bad.append('<expression>'); continue
+                        full = imported.get(d_.split('.')[0])
+                        q = d_ if full is None else (full + d_[len(d_.split('.')[0]):])
+                        seen_.append(q)
+                        last = q.split('.')[-1]
+                        if (full is None and '.' not in d_ and _broad(d_)) or q == 'socket.error' or (q.startswith('builtins.') and _broad(last)):
+                            bad.append(q)
+                fname = '%s.%s' % (cname, mname)
+                name = '%s#ensures[%s]' % (fname, label)
+                obs.append({'name': name, 'kind': 'postcondition', 'func': fname, 'pos': '%s:%d' % (os.path.relpath(P('contracts'), repo), cln), 'text': 'narrow(registered): registered = %s' % seen_, 'expect': 'unsat',
+                            'result': 'sat' if bad else 'unsat', 'backend': 'ast (decidable: names of a literal tuple against the built-in exception hierarchy)', 'seconds': 0.0, 'smt_file': '',
+                            'status': 'FAILED' if bad else 'discharged', 'model': {'registered class broader than a gateway failure': ', '.join(bad)} if bad else None})
+                obs.append({'name': fname + '#reach.return', 'kind': 'vacuity', 'func': fname, 'pos': os.path.relpath(P('source'), repo), 'text': '', 'expect': 'sat', 'result': 'sat' if seen_ else 'unsat',
+                            'backend': 'ast', 'seconds': 0.0, 'smt_file': '', 'status': 'reachable' if seen_ else 'VACUOUS', 'model': None})
+                funcs.append({'func': fname, 'source': os.path.relpath(P('source'), repo), 'contract': '%s:%d' % (os.path.relpath(P('contracts'), repo), cln), 'paths': 1, 'obligations': 1,
+                              'inlined_callees': [], 'externs': [], 'notes': ['registration unit: decided on the AST'], 'modes': ['seq']})
+        except ToolError as e:
             tool_errors.append(str(e))
     nproof = sum(1 for o in obs if o['expect'] == 'unsat'); ndis = sum(1 for o in obs if o['status'] == 'discharged')
     nvac = sum(1 for o in obs if o['expect'] == 'sat'); nvacok = sum(1 for o in obs if o['status'] == 'reachable')
